@@ -9,7 +9,7 @@ deadline, the keep-alive ticker) are outside the model.  The EnquireLink gorouti
 tied by its regenerated statements and exercised on the real code by the `connka` operations (not compared with the
 model line by line).
 -/
-import Smpp.Proofs.ConnInv
+import Smpp.Proofs.ConnProgress
 import Smpp.Properties.ConnSource
 
 namespace Smpp.Properties.C15
@@ -124,6 +124,45 @@ theorem C15_keepalive_never_stuck (tbl) (hd : Distinct tbl) (hf : Fresh tbl) (s 
   cases ht : s.tickerStopped with
   | false => exact Or.inl rfl
   | true => exact Or.inr ((invKa tbl hd hf s h).stoppedDone hk ht)
+
+/-! ## "every blocked Submit returns … promptly", "never outlives its own context": states at rest
+
+Goroutine steps (`Label.internal`: callers past their start, Watch, the transport's Write returning) strictly decrease the
+measure `mu` (`C15_no_livelock`), so after the last environment event the goroutines come to rest after finitely many steps,
+whatever the schedule.  In EVERY reachable state at rest: -/
+
+/-- once the connection context is done (transport end seen by Watch, Close returned answered or not, parent cancelled)
+every call that was started HAS RETURNED, and Watch has returned — or is parked in Read on a transport that is still open
+with nothing to read (parent cancellation alone does not interrupt a blocked Read; ReadTimeout, outside the model, does) -/
+theorem C15_all_returned_after_teardown (tbl) (hd : Distinct tbl) (hf : Fresh tbl) (s : State) (hr : ReachP tbl s)
+    (hq : Quiescent s) (hconn : s.connDone = true) :
+    (∀ i, (s.callers i).pc = .idle ∨ ∃ r, (s.callers i).pc = .done r) ∧
+    (s.watch = .returned ∨ (s.watch = .reading ∧ s.inbound = [] ∧ s.readSide = .open)) :=
+  teardown_quiescent tbl hd hf s hr hq hconn
+
+/-- a call never outlives its own context: at rest, a call whose context is done has returned (or was never started) -/
+theorem C15_not_outliving_own_context (s : State) (hq : Quiescent s) (i : Nat) (hown : (s.callers i).ownDone = true) :
+    (s.callers i).pc = .idle ∨ ∃ r, (s.callers i).pc = .done r := by
+  rcases quiescent_pc s hq i with h | h | ⟨_, _, _, h⟩
+  · exact Or.inl h
+  · exact Or.inr h
+  · rw [hown] at h; cases h
+
+/-- once the transport's read side has ended, Watch is not left reading: at rest it has returned (Done() closed) -/
+theorem C15_watch_returned_after_transport_end (tbl) (hd : Distinct tbl) (hf : Fresh tbl) (s : State) (hr : ReachP tbl s)
+    (hq : Quiescent s) (hend : s.readSide ≠ .open) (hdrain : s.draining = true) : s.watch = .returned ∧ s.connDone = true := by
+  obtain ⟨_, _, h3, _⟩ := inv_all tbl hd hf s hr.reach
+  rcases quiescent_watch s hq with hw | ⟨_, _, ho⟩ | ⟨k, p, q, hw, hb⟩ | ⟨p, _, hdr, _⟩
+  · exact ⟨hw, (h3.watchDone hw).1⟩
+  · exact absurd ho hend
+  · exact absurd hb (fun hb => no_double_delivery tbl hd hf s hr k p q hw hb)
+  · rw [hdrain] at hdr; cases hdr
+
+theorem C15_no_livelock (tbl) (hd : Distinct tbl) (hf : Fresh tbl) (n : Nat) (ls : List Label) (s s' : State)
+    (hr : ReachP tbl s) (hb : Bounded n s) (hall : ∀ l ∈ ls, l.internal = true) (hrun : run s ls = some s') :
+    ls.length ≤ mu n s := by
+  have := (internal_run_bound tbl hd hf n ls s s' hr hb hall hrun).1
+  omega
 
 /-! ## non-vacuity: the window the property names — an unsolicited PDU right after unbind_resp, nobody receiving -/
 def tblc : Nat → Caller := fun _ => { kind := .close, seq := 9, after := none }
